@@ -110,20 +110,25 @@ Definition st (fee pnl_u : Q) (priced : bool) :=
   mkOI (pos fee pnl_u 1000) (if priced then Some 110 else None) 0 None None
        (if priced then Some (2000%Z, 110) else None).
 (* buy 2 @ 100 without fee, then a public trade at 110: the estimate is 2*110 - 2*100 = 20 *)
-Check eq_refl : judge (CEngine 2 (evs 0) [ (st 0 0 false, None); (st 0 20 true, None) ]%list
+Check eq_refl : judge (CEngine (spots 2) (evs 0) [ (st 0 0 false, None); (st 0 20 true, None) ]%list
                                [ st 0 20 true; flat ]%list true) = 0%N.
 (* the market event did not refresh the estimate (pre-fix behaviour of d9de16e): rejected *)
-Check eq_refl : judge (CEngine 2 (evs 0) [ (st 0 0 false, None); (st 0 0 true, None) ]%list
+Check eq_refl : judge (CEngine (spots 2) (evs 0) [ (st 0 0 false, None); (st 0 0 true, None) ]%list
                                [ st 0 0 true; flat ]%list true) = 2%N.
 (* opening fill with fee 1: the stored 0 right after the fill is the known class, the refreshed
    value 20 - 1 = 19 is fine *)
-Check eq_refl : judge (CEngine 2 (evs 1) [ (st 1 0 false, None); (st 1 19 true, None) ]%list
+Check eq_refl : judge (CEngine (spots 2) (evs 1) [ (st 1 0 false, None); (st 1 19 true, None) ]%list
                                [ st 1 19 true; flat ]%list true) = 101%N.
+(* the same observations on a perpetual with contract size 0.001 settled in another asset: same
+   verdict - kind and contract size are not read *)
+Check eq_refl : judge (CEngine [mkInst 1 (1 # 1000) false 1; mkInst 0 1 true 0]%list (evs 0)
+                               [ (st 0 0 false, None); (st 0 20 true, None) ]%list
+                               [ st 0 20 true; flat ]%list true) = 0%N.
 (* ... but a stale value after the market event is not excused by the known class *)
-Check eq_refl : judge (CEngine 2 (evs 1) [ (st 1 0 false, None); (st 1 0 true, None) ]%list
+Check eq_refl : judge (CEngine (spots 2) (evs 1) [ (st 1 0 false, None); (st 1 0 true, None) ]%list
                                [ st 1 0 true; flat ]%list true) = 2%N.
 (* ... nor is a non-zero wrong value on the fresh position *)
-Check eq_refl : judge (CEngine 2 (evs 1) [ (st 1 5 false, None); (st 1 19 true, None) ]%list
+Check eq_refl : judge (CEngine (spots 2) (evs 1) [ (st 1 5 false, None); (st 1 19 true, None) ]%list
                                [ st 1 19 true; flat ]%list true) = 2%N.
 End PinCorr.
 
@@ -143,6 +148,6 @@ Definition evs := [ OFill (mkOF 1 0 10 Buy 100 2 1);
     OMarket 0 (OMOther 50);
     OFill (mkOF 3 0 60 Sell 108 5 2);
     OMarket 0 (OMOther 70) ]%list.
-Check eq_refl : oracle_accepts_model (CEngine 2 evs [] [] true) = true.
-Check eq_refl : verdicts (model_case (CEngine 2 evs [] [] true)) = [1; 0; 0; 0; 0; 0; 0; 1; 0]%N.
+Check eq_refl : oracle_accepts_model (CEngine (spots 2) evs [] [] true) = true.
+Check eq_refl : verdicts (model_case (CEngine (spots 2) evs [] [] true)) = [1; 0; 0; 0; 0; 0; 0; 1; 0]%N.
 End PinSelf.
